@@ -2,17 +2,17 @@ SPECIFICATION Spec
 CONSTANTS
   FullWidthPad = FALSE
   WsIgnored = TRUE
-  EReps = {1}
+  EReps = {1, 2}
   CovReps = {}
   VReps = {1}
-  Vals = {1}
+  Vals = {1, 6}
   XFlags = {FALSE}
   MaxRuns = 3
-  MaxRows = 3
+  MaxRows = 2
   ERowReps = {1, 2}
-  VRowReps = {1, 2}
+  VRowReps = {1}
   MaxArea = 4194304
-  WsNames = {}
-  PwNames = {""}
+  WsNames = {"crlf"}
+  PwNames = {"", "nl2", "tab"}
 INVARIANTS ColsAgree PendingOnlyEmpty NoError Incremental Refines Dump
 CHECK_DEADLOCK FALSE
